@@ -113,7 +113,7 @@ CLAIMED['C09'] = dict(
     text='Schedule-symbolic BMC of concurrent SealEnvelope calls on one secret store (every datastore operation and every messageMutex operation a visible step): '
          'stuck states, per-goroutine assertions and final-state assertions over the header counters of the returned envelopes (pairwise distinct, gap-free, increasing); '
          'the datastore invariant used to avoid forking on reads (chain-key entry present and well-formed) is itself a state assertion of the BMC.',
-    note=TB + 'Bounds: BMC 2 senders x 1 message on one and two groups (thorough tier only); symbolic scheduler 2x1 on one and two groups, first use of a group (quick), 2x2 and 3x1 (thorough). Outside: receivers running concurrently, real parallel hardware below SC.',
+    note=TB + 'Bounds: the one-formula BMC harness (VerifC09Concurrent) is kept but no longer registered (did not finish in 40 minutes with the keystore executed for real); symbolic scheduler 2x1 on one and two groups, first use of a group (quick), 2x2 and 3x1 (thorough). Outside: receivers running concurrently, real parallel hardware below SC.',
     design='4, 6/C09', technique='bounded model checking with symbolic schedules over go/ssa-derived operation sequences + SMT (z3)')
 CLAIMED['C10'] = dict(
     text='Symbolic execution of receive / send / key-creation workloads with the crash point a free integer kappa masking every later datastore or keystore mutation '
